@@ -147,7 +147,7 @@ def last_of(i: int, j: int) -> bool:
 def new_of(i: int) -> bool:
     """
     Existing versions: v<DP><c> (c symbolic) and the lower v000.  Probe VF_STAR: 0 the Sid itself with get_new, 1 a '*' version,
-    2 a '>' version with get_next: the successor of the last existing one, not existing yet, every other field unchanged,
+    2 a '>' version with get_next, 3 a Sid whose own (concrete) version does not exist with get_new: the successor of the last existing one, not existing yet, every other field unchanged,
     or the empty Sid beyond v999.
     pre: i == 48 or i == 53 or i == 56 or i == 57
     post: _
@@ -156,8 +156,8 @@ def new_of(i: int) -> bool:
     e1, e0 = PRE + "v" + a + SUF, PRE + "v000" + SUF
     STUB.items = [e0, e1]
     sid = Sid(e0)
-    probe = [sid, Sid(PRE + "*" + SUF), Sid(PRE + ">" + SUF)][star]
-    new = _with_stub(lambda: probe.get_new("version")) if star == 0 else _with_stub(lambda: probe.get_next("version"))
+    probe = [sid, Sid(PRE + "*" + SUF), Sid(PRE + ">" + SUF), Sid(PRE + "v500" + SUF)][star]     # 3: a Sid whose own version does not exist
+    new = _with_stub(lambda: probe.get_new("version")) if star in (0, 3) else _with_stub(lambda: probe.get_next("version"))
     n = int(a)
     if n >= 999:
         return (not new) or fail("beyond-last-version-not-empty")
